@@ -45,7 +45,7 @@ func checkC12(c *Ctx) {
 // node of the input graph.
 func c12NodeIndex(c *Ctx) {
 	r, p := c.R, c.P
-	r.Rule("C12.J9", "the @ids index holds exactly the nodes of the input document, each under its own @id", 1)
+	r.Rule("C12.J9", "the @ids index holds exactly the nodes of the input document (described or only referred to), each under its own @id", 1)
 	pk := p.Pkg("internal/validator")
 	if pk == nil {
 		return
@@ -106,6 +106,13 @@ func c12NodeIndex(c *Ctx) {
 				for _, l := range s.loops {
 					if s.v != nil && s.v.X == l {
 						inLoop = true
+					}
+				}
+				// a node the document only refers to: a bare node {"@id": id} stored under that very id, read from a value of the document
+				if s.v != nil && s.v.K == symStruct && len(s.v.Fields) == 1 && s.k != nil {
+					if idv, ok := s.v.Fields["@id"]; ok && idv.String() == s.k.String() && strings.Contains(s.k.String(), "[*]") && strings.HasSuffix(s.k.String(), `["@id"]`) {
+						r.OK("C12.J9", ord.next(key+"#entry"), p.Pos(s.pos), "a node the document refers to, stored as a bare node under its own @id")
+						continue
 					}
 				}
 				r.Check(okv && inLoop, "C12.J9", ord.next(key+"#entry"), p.Pos(s.pos), "an element of the document's node list, stored under its own @id", "the node index receives "+s.v.String()+" under "+s.k.String()+", which is not `a node of the flattened document under its own @id`: the generated code treats every entry as a graph node, so results can name a focus node that the input graph does not contain")
